@@ -13,6 +13,7 @@ type wext struct {
 }
 
 type whello struct {
+	pre    []byte // legacy_version, random, session_id (with its length byte)
 	suites []uint16
 	comp   []byte
 	exts   []wext
@@ -79,14 +80,15 @@ func parseHello(raw []byte) (*whello, error) {
 	if _, err := r.take(2 + 32); err != nil {
 		return nil, err
 	}
-	if _, err := r.vec8(); err != nil {
+	sid, err := r.vec8()
+	if err != nil {
 		return nil, err
 	}
 	sb, err := r.vec16()
 	if err != nil {
 		return nil, err
 	}
-	w := &whello{}
+	w := &whello{pre: append([]byte(nil), raw[4:4+2+32+1+len(sid)]...)}
 	if w.suites, err = u16list(sb); err != nil {
 		return nil, err
 	}
@@ -230,4 +232,45 @@ func (w *whello) normalise() (suites []uint16, exts []wext) {
 		exts = append(exts, n)
 	}
 	return
+}
+
+// rebuild serialises the (possibly edited) hello again as a handshake message.
+func (w *whello) rebuild() []byte {
+	var b bytes.Buffer
+	b.Write(w.pre)
+	b.WriteByte(byte(2 * len(w.suites) >> 8))
+	b.WriteByte(byte(2 * len(w.suites)))
+	for _, s := range w.suites {
+		b.WriteByte(byte(s >> 8))
+		b.WriteByte(byte(s))
+	}
+	b.WriteByte(byte(len(w.comp)))
+	b.Write(w.comp)
+	var eb bytes.Buffer
+	for _, e := range w.exts {
+		eb.Write([]byte{byte(e.id >> 8), byte(e.id), byte(len(e.data) >> 8), byte(len(e.data))})
+		eb.Write(e.data)
+	}
+	b.WriteByte(byte(eb.Len() >> 8))
+	b.WriteByte(byte(eb.Len()))
+	b.Write(eb.Bytes())
+	n := b.Len()
+	return append([]byte{1, byte(n >> 16), byte(n >> 8), byte(n)}, b.Bytes()...)
+}
+
+func encU16Vec16(l []uint16) []byte {
+	b := []byte{byte(2 * len(l) >> 8), byte(2 * len(l))}
+	for _, v := range l {
+		b = append(b, byte(v>>8), byte(v))
+	}
+	return b
+}
+
+func encKeyShares(ks []kshare) []byte {
+	var body []byte
+	for _, k := range ks {
+		body = append(body, byte(k.group>>8), byte(k.group), byte(len(k.data)>>8), byte(len(k.data)))
+		body = append(body, k.data...)
+	}
+	return append([]byte{byte(len(body) >> 8), byte(len(body))}, body...)
 }
